@@ -38,6 +38,16 @@ SSE_FORMS = [
     'cvtpi2ps xmm0, mm1', 'cvtps2pi mm0, xmm1', 'maskmovq mm0, mm1', 'psadbw xmm0, xmm1', 'pmuludq xmm0, xmm1', 'pavgb mm0, mm1',
 ]
 
+# segment-register forms: (line, far-pointer operand size or 0).  Their base states hold loadable selectors wherever the form reads one.
+SEG_FORMS = [
+    'les eax, [esi]', 'les ax, [esi]', 'lds ebx, [esi]', 'lds bx, [esi]', 'lss eax, [esi]', 'lss ax, [esi]', 'lfs eax, [esi]', 'lfs cx, [esi]',
+    'lgs edx, [esi]', 'lgs dx, [esi]', 'les eax, [esi+8]', 'les ax, [esi+8]',
+    'mov ax, es', 'mov eax, es', 'mov ebx, fs', 'mov cx, gs', 'mov edx, ds', 'mov eax, ss', 'mov eax, cs', 'mov WORD PTR [esi], es', 'mov WORD PTR [esi], fs',
+    'mov es, ax', 'mov es, eax', 'mov fs, ax', 'mov gs, ax', 'mov ds, ax', 'mov es, WORD PTR [esi]', 'mov gs, WORD PTR [esi+2]',
+    'push es', 'push fs', 'push gs', 'push ds', 'push cs', 'push ss', 'pop es', 'pop fs', 'pop gs', 'pop ds',
+]
+SEGS = ['es', 'ds', 'fs', 'gs', 'ss']
+
 
 def dbl80(x):
     """80-bit extended encoding of a small positive/negative number k/2"""
@@ -78,6 +88,19 @@ def base_states():
     return S
 
 
+def seg_base_states():
+    """base states for SEG_FORMS: eax, the stack slot and both far-pointer layouts at [esi] / [esi+8] hold a loadable selector"""
+    S = []
+    for k, (regs, fl, img, fx) in enumerate(base_states()):
+        regs = dict(regs, eax=0x00070000 + k * 0x10000 + cpu.USER_DS)
+        img = bytearray(img)
+        for o in (64, 72):
+            img[o:o + 6] = struct.pack('<HHH', 0x1234 + k, cpu.USER_DS, cpu.USER_DS)       # m16:16 selector at +2, m16:32 selector at +4
+        img[0x80:0x84] = struct.pack('<I', cpu.USER_DS)
+        S.append((regs, fl, bytes(img), fx))
+    return S
+
+
 def eflags_of(fl):
     v = 0x202
     for f, b in fl.items():
@@ -106,11 +129,15 @@ def observe(res):
         o['mm%d' % ((top + i) & 7)] = fx[32 + 16 * i:32 + 16 * i + 8]
         o['xmm%d' % i] = fx[160 + 16 * i:160 + 16 * i + 16]
     o['eip'] = res['eip']
+    for sname in SEGS:
+        o[sname] = res['segs'][sname]
     return o
 
 
-def pre_observe(regs, fl, img, fx):
-    return observe({'regs': regs, 'eflags': eflags_of(fl), 'mem': img, 'fx': fx, 'eip': 0})
+def pre_observe(regs, fl, img, fx, segs=None):
+    sg = dict(cpu.SEG_DEFAULT, ds=cpu.USER_DS, ss=cpu.USER_DS)
+    sg.update(segs or {})
+    return observe({'regs': regs, 'eflags': eflags_of(fl), 'mem': img, 'fx': fx, 'eip': 0, 'segs': sg})
 
 
 def perturbations(line, regs, fl, img, fx, fpsse):
@@ -133,6 +160,17 @@ def perturbations(line, regs, fl, img, fx, fpsse):
             for i in range(n):
                 im[off + i] ^= x
             P.append(('mem', dict(img=bytes(im))))
+    # every single byte of the memory operands in isolation (cell-level read sets)
+    for off, n in ((64, 16), (160, 4), (regs['esp'] - cpu.WIN, 4)):
+        for i in range(n):
+            for x in (0x01, 0x80):
+                im = bytearray(img)
+                im[off + i] ^= x
+                P.append(('membyte:%d' % (off + i), dict(img=bytes(im))))
+    # the segment registers a ring-3 process can load with another selector of the same flat segment (RPL 2) / the code segment
+    for sname in ('es', 'fs', 'gs'):
+        for v in (cpu.USER_DS ^ 1, cpu.USER_CS):
+            P.append((sname, dict(segs=dict(cpu.SEG_DEFAULT, **{sname: v}))))
     mmx = bool(re.search(r'\bmm\d', line)) or line.startswith('emms')
     if fpsse and mmx:
         for j in range(8):
@@ -185,7 +223,8 @@ def rw_sets(ctx, b):
             rd |= names_of(a.dst.arg.get_r(mem_read=True), X)
         wr |= names_of(a.get_w(), X)
     cells = [(irsem.to_neutral(w.arg), w.size) for a in lst for w in a.get_w() if isinstance(w, X.ExprMem)]
-    return rd, wr, ins.m.name, cells
+    rcells = [(irsem.to_neutral(r.arg), r.size) for a in lst for r in a.get_r(mem_read=True) if isinstance(r, X.ExprMem)]
+    return rd, wr, ins.m.name, cells, rcells
 
 
 def written_cells(cells, regs, fl, img):
@@ -208,7 +247,7 @@ def written_cells(cells, regs, fl, img):
     return cov
 
 
-def form_case(ctx, part, line, b, fpsse, tier):
+def form_case(ctx, part, line, b, fpsse, tier, seg=False):
     try:
         with core.quiet_stdout():
             rw = rw_sets(ctx, b)
@@ -218,16 +257,16 @@ def form_case(ctx, part, line, b, fpsse, tier):
     if rw is None:
         part.skip('not decoded')
         return
-    rd, wr, mname, cells = rw
+    rd, wr, mname, cells, rcells = rw
     mn = line.split()[0]
     mnc = re.sub(r'^(set|cmov|j|fcmov)(o|no|b|ae|e|ne|be|a|s|ns|p|np|l|ge|le|g|nb|nbe|u|nu)$', r'\1cc', mn)
     sigbase = '%s/%s' % (mnc, c04.opform(line))
     missing_r, missing_w = {}, {}
-    for regs, fl, img, fx in base_states():
+    for regs, fl, img, fx in (seg_base_states() if seg else base_states()):
         recs = [dict(code=b, regs=regs, eflags=eflags_of(fl), mem=img, fx=fx)]
         P = perturbations(line, regs, fl, img, fx, fpsse)
         for loc, ch in P:
-            recs.append(dict(code=b, regs=ch.get('regs', regs), eflags=eflags_of(ch.get('fl', fl)), mem=ch.get('img', img), fx=ch.get('fx', fx)))
+            recs.append(dict(code=b, regs=ch.get('regs', regs), eflags=eflags_of(ch.get('fl', fl)), mem=ch.get('img', img), fx=ch.get('fx', fx), segs=ch.get('segs')))
         res = cpu.run_batch(recs)
         part.n += len(recs)
         if res[0]['sig'] != cpu.SIGTRAP:
@@ -257,16 +296,27 @@ def form_case(ctx, part, line, b, fpsse, tier):
                 if out:
                     missing_w.setdefault('mem-cell', 'base state: the processor changes the byte at window+%d (%#x) but the memory destinations of get_w() cover %s' % (
                         out[0], cpu.WIN + out[0], sorted(hex(x) for x in cov)[:8]))
+        rcov = None
         for (loc, ch), r1 in zip(P, res[1:]):
             if r1['sig'] != cpu.SIGTRAP:
-                continue
-            pre1 = pre_observe(ch.get('regs', regs), ch.get('fl', fl), ch.get('img', img), ch.get('fx', fx))
-            post1 = observe(r1)
-            written = written0 | {k for k in post1 if k != 'eip' and post1[k] != pre1[k]}
-            diff = [k for k in written if post0[k] != post1[k] and k not in und]
-            if post0['eip'] != post1['eip']:
-                diff.append('eip')
-            if loc == 'mem':
+                if not seg:
+                    continue
+                # segment forms: whether the selector is loadable is a result of the instruction (the base run completes,
+                # the perturbed one raises #GP/#SS/#NP): the perturbed location decides it
+                diff = ['fault']
+                post1 = None
+            else:
+                pre1 = pre_observe(ch.get('regs', regs), ch.get('fl', fl), ch.get('img', img), ch.get('fx', fx), ch.get('segs'))
+                post1 = observe(r1)
+                written = written0 | {k for k in post1 if k != 'eip' and post1[k] != pre1[k]}
+                diff = [k for k in written if post0[k] != post1[k] and k not in und]
+                if post0['eip'] != post1['eip']:
+                    diff.append('eip')
+            byte = None
+            if loc.startswith('membyte:'):
+                byte = int(loc.split(':')[1])
+                loc = 'mem'
+            if loc == 'mem' and post1 is not None:
                 # the perturbed bytes themselves are not an output unless the instruction writes them
                 diff = [k for k in diff if k != 'mem' or any(post0['mem'][i] != post1['mem'][i] and (pre0['mem'][i] == pre1['mem'][i]) for i in range(256))
                         or any(post0['mem'][i] != post1['mem'][i] and post0['mem'][i] != pre0['mem'][i] for i in range(256))]
@@ -276,15 +326,22 @@ def form_case(ctx, part, line, b, fpsse, tier):
             if not (loc_names & rd):
                 lk = re.sub(r'\d', 'N', loc) if re.match(r'(float_st|mm|xmm)\d', loc) else loc
                 missing_r.setdefault(lk, 'perturbing %s changes %s on the processor but get_r(mem_read=True) = %s' % (loc, sorted(diff)[:4], sorted(rd)))
+            elif byte is not None:
+                # cell level: a byte whose value alone changes a result lies inside a memory cell of get_r(mem_read=True)
+                if rcov is None:
+                    rcov = written_cells(rcells, regs, fl, img) or False
+                if rcov is not False and (cpu.WIN + byte) not in rcov:
+                    missing_r.setdefault('mem-cell', 'perturbing the byte at window+%d (%#x) alone changes %s on the processor but the memory cells of get_r(mem_read=True) cover %s' % (
+                        byte, cpu.WIN + byte, sorted(diff)[:4], sorted(hex(x) for x in rcov)[:12]))
     if not missing_r and not missing_w:
         part.keys.add(core.h64(line))
         if len(part.samples) < 3:
             part.samples.append({'form': line, 'bytes': b.hex(), 'get_r': sorted(rd), 'get_w': sorted(wr)})
         part.outcomes.add(core.h64((tuple(sorted(rd)), tuple(sorted(wr)))))
     for k, d in missing_r.items():
-        part.violation('%s missing-read=%s' % (sigbase, k), '%s (%s): %s' % (line, b.hex(), d), {'line': line, 'bytes': b.hex(), 'fpsse': fpsse})
+        part.violation('%s missing-read=%s' % (sigbase, k), '%s (%s): %s' % (line, b.hex(), d), {'line': line, 'bytes': b.hex(), 'fpsse': fpsse, 'seg': seg})
     for k, d in missing_w.items():
-        part.violation('%s missing-write=%s' % (sigbase, k), '%s (%s): %s' % (line, b.hex(), d), {'line': line, 'bytes': b.hex(), 'fpsse': fpsse})
+        part.violation('%s missing-write=%s' % (sigbase, k), '%s (%s): %s' % (line, b.hex(), d), {'line': line, 'bytes': b.hex(), 'fpsse': fpsse, 'seg': seg})
 
 
 def all_forms(tier):
@@ -299,6 +356,8 @@ def all_forms(tier):
         F.append((line, False))
     for line in FP_FORMS + SSE_FORMS:
         F.append((line, True))
+    for line in SEG_FORMS:
+        F.append((line, 'seg'))
     return F
 
 
@@ -312,7 +371,7 @@ def shard(s, ns, tier, seed):
         if b is None:
             part.skip('form rejected by GNU as')
             continue
-        form_case(ctx, part, line, b, fpsse, tier)
+        form_case(ctx, part, line, b, fpsse is True, tier, seg=(fpsse == 'seg'))
     return part
 
 
@@ -337,7 +396,7 @@ def run(tier, seed):
 def replay(w):
     ctx = c04.make_ctx()
     part = core.Part()
-    form_case(ctx, part, w['line'], bytes.fromhex(w['bytes']), w['fpsse'], 'quick')
+    form_case(ctx, part, w['line'], bytes.fromhex(w['bytes']), w['fpsse'], 'quick', seg=w.get('seg', False))
     if part.viols:
         return True, '\n'.join('%s: %s' % (k, v[1]) for k, v in part.viols.items())
     return False, 'ok'
